@@ -36,7 +36,8 @@ type CaseSpec struct {
 	EmptyData  bool `json:"empty_data"` // OnlyMarshal cases only: the expected Data is empty (the marshaler returns nil or an empty slice)
 }
 
-// Hook kinds: 0 nil, 1 ok, 2 returns error, 3 panics, 4 ok but overwrites the Data field of the case it is handed.
+// Hook kinds: 0 nil, 1 ok, 2 returns error, 3 panics, 4 ok but overwrites the Data field of the case it is handed,
+// 5 (Before only) ok and installs a failing After hook on the case it is handed, 6 (Before only) ok and removes the After hook.
 const scribbled = "scribbled-by-hook"
 
 // ListSpec is one helper invocation.
@@ -331,6 +332,17 @@ type caseModel struct {
 
 func hookFails(h int) bool { return h == 2 || h == 3 }
 
+// effectiveAfter is the After hook that runs for the case: a Before hook of kind 5/6 replaces it for this run.
+func effectiveAfter(cs CaseSpec) int {
+	switch cs.Before {
+	case 5:
+		return 2
+	case 6:
+		return 0
+	}
+	return cs.After
+}
+
 // errOf describes the error the scripted call of the given direction produces for the case.
 func errOf(cs CaseSpec, marshal bool, tag int) errInfo {
 	t := strconv.Itoa(tag)
@@ -339,9 +351,9 @@ func errOf(cs CaseSpec, marshal bool, tag int) errInfo {
 		case cs.NilValue:
 			return errInfo{isErr: true, prefix: nilDerefPrefix}
 		case cs.MErr == 1:
-			return errInfo{isErr: true, exact: "boom " + t, prefix: "boom " + t}
+			return errInfo{isErr: true, exact: "boom 100%s " + t, prefix: "boom 100%s " + t}
 		case cs.MErr == 2:
-			return errInfo{isErr: true, prefix: "panic: pboom " + t + "\n"}
+			return errInfo{isErr: true, prefix: "panic: pboom 100%d %v " + t + "\n"}
 		}
 		return errInfo{}
 	}
@@ -351,9 +363,9 @@ func errOf(cs CaseSpec, marshal bool, tag int) errInfo {
 	}
 	switch cs.UErr {
 	case 1:
-		return errInfo{isErr: true, exact: "uboom " + t, prefix: "uboom " + t}
+		return errInfo{isErr: true, exact: "uboom %!x " + t, prefix: "uboom %!x " + t}
 	case 2:
-		return errInfo{isErr: true, prefix: "panic: upboom " + t + "\n"}
+		return errInfo{isErr: true, prefix: "panic: upboom 50% full " + t + "\n"}
 	}
 	return errInfo{}
 }
@@ -370,7 +382,7 @@ func modelCase(cs CaseSpec, idx int, mainMarshal, dirMarshal bool, tag int) case
 	if !m.applicable {
 		return m
 	}
-	if hookFails(cs.Before) || hookFails(cs.After) {
+	if hookFails(cs.Before) || hookFails(effectiveAfter(cs)) {
 		m.unsatisfied = true
 		return m
 	}
@@ -383,7 +395,7 @@ func modelCase(cs CaseSpec, idx int, mainMarshal, dirMarshal bool, tag int) case
 		if cs.EmptyData && cs.MOut == 2 && !cs.NilValue && cs.MErr != 2 {
 			dataRight = true // nil result against empty expected data
 		}
-		if cs.Before == 4 || cs.After == 4 {
+		if cs.Before == 4 || effectiveAfter(cs) == 4 {
 			dataRight = false // the hook replaced the expected data of this run
 		}
 		if cs.Pred == 0 {
@@ -443,9 +455,9 @@ func runList[T any](spec ListSpec, mkValue func(tag int, payload string, isNil b
 		}
 		switch cs.MErr {
 		case 1:
-			ms.err = errors.New("boom " + strconv.Itoa(tag))
+			ms.err = errors.New("boom 100%s " + strconv.Itoa(tag))
 		case 2:
-			ms.panic = "pboom " + strconv.Itoa(tag)
+			ms.panic = "pboom 100%d %v " + strconv.Itoa(tag)
 		}
 		mReg.Store(tag, ms)
 		us := uScript{tag: tag, payload: "p" + strconv.Itoa(tag)}
@@ -458,9 +470,9 @@ func runList[T any](spec ListSpec, mkValue func(tag int, payload string, isNil b
 		}
 		switch cs.UErr {
 		case 1:
-			us.err = errors.New("uboom " + strconv.Itoa(tag))
+			us.err = errors.New("uboom %!x " + strconv.Itoa(tag))
 		case 2:
-			us.panic = "upboom " + strconv.Itoa(tag)
+			us.panic = "upboom 50% full " + strconv.Itoa(tag)
 		}
 		uReg.Store(tag, us)
 		defer mReg.Delete(tag)
@@ -477,8 +489,16 @@ func runList[T any](spec ListSpec, mkValue func(tag int, payload string, isNil b
 		case "MarshalText", "UnmarshalText":
 			cs := make([]test.CaseText[T], len(cases))
 			mk := func(kind, tag int) func(int, *test.CaseText[T]) error {
-				if kind == 4 {
+				switch kind {
+				case 4:
 					return func(_ int, c *test.CaseText[T]) error { c.Data = scribbled; return nil }
+				case 5:
+					return func(_ int, c *test.CaseText[T]) error {
+						c.After = func(int, *test.CaseText[T]) error { return errors.New("after hook installed by the before hook") }
+						return nil
+					}
+				case 6:
+					return func(_ int, c *test.CaseText[T]) error { c.After = nil; return nil }
 				}
 				return hook[test.CaseText[T]](kind, tag)
 			}
@@ -499,8 +519,16 @@ func runList[T any](spec ListSpec, mkValue func(tag int, payload string, isNil b
 		case "MarshalBinary", "UnmarshalBinary":
 			cs := make([]test.CaseBinary[T], len(cases))
 			mk := func(kind, tag int) func(int, *test.CaseBinary[T]) error {
-				if kind == 4 {
+				switch kind {
+				case 4:
 					return func(_ int, c *test.CaseBinary[T]) error { c.Data = []byte(scribbled); return nil }
+				case 5:
+					return func(_ int, c *test.CaseBinary[T]) error {
+						c.After = func(int, *test.CaseBinary[T]) error { return errors.New("after hook installed by the before hook") }
+						return nil
+					}
+				case 6:
+					return func(_ int, c *test.CaseBinary[T]) error { c.After = nil; return nil }
 				}
 				return hook[test.CaseBinary[T]](kind, tag)
 			}
@@ -521,8 +549,16 @@ func runList[T any](spec ListSpec, mkValue func(tag int, payload string, isNil b
 		case "MarshalJSON", "UnmarshalJSON":
 			cs := make([]test.CaseJSON[T], len(cases))
 			mk := func(kind, tag int) func(int, *test.CaseJSON[T]) error {
-				if kind == 4 {
+				switch kind {
+				case 4:
 					return func(_ int, c *test.CaseJSON[T]) error { c.Data = scribbled; return nil }
+				case 5:
+					return func(_ int, c *test.CaseJSON[T]) error {
+						c.After = func(int, *test.CaseJSON[T]) error { return errors.New("after hook installed by the before hook") }
+						return nil
+					}
+				case 6:
+					return func(_ int, c *test.CaseJSON[T]) error { c.After = nil; return nil }
 				}
 				return hook[test.CaseJSON[T]](kind, tag)
 			}
@@ -604,6 +640,9 @@ func normalise(spec ListSpec) ListSpec {
 		c := &out.Cases[i]
 		if spec.Type != "SP" {
 			c.NilValue = false
+		}
+		if c.After > 4 {
+			c.After = 1
 		}
 		if c.Constraint != 1 {
 			c.EmptyData = false // an empty Data cannot carry the scripted unmarshal input
@@ -767,7 +806,7 @@ var helpers = []string{"MarshalText", "UnmarshalText", "MarshalBinary", "Unmarsh
 var typesAll = []string{"SV", "SP", "SV", "SP", "NoIface", "MOnly", "UOnly", "PRecv"}
 
 func genCase(rt *rapid.T) CaseSpec {
-	hookG := rapid.SampledFrom([]int{0, 0, 0, 0, 1, 1, 2, 3, 4})
+	hookG := rapid.SampledFrom([]int{0, 0, 0, 0, 1, 1, 2, 3, 4, 5, 6})
 	cs := CaseSpec{
 		Constraint: rapid.SampledFrom([]int{0, 0, 1, 2}).Draw(rt, "constraint"),
 		Before:     hookG.Draw(rt, "before"),
@@ -846,7 +885,7 @@ func TestCheck(t *testing.T) {
 			}
 		}
 		for con := 0; con < 3; con++ {
-			for _, hk := range [][2]int{{4, 0}, {0, 4}, {4, 4}, {4, 1}, {1, 4}} {
+			for _, hk := range [][2]int{{4, 0}, {0, 4}, {4, 4}, {4, 1}, {1, 4}, {5, 0}, {5, 1}, {6, 2}, {6, 3}, {6, 1}, {5, 3}} {
 				for pred := 0; pred <= 6; pred++ {
 					for hit := 0; hit < 2; hit++ {
 						for out := 0; out < 3; out++ {
@@ -862,6 +901,17 @@ func TestCheck(t *testing.T) {
 			for out := 0; out < 3; out++ {
 				for er := 0; er < 3; er++ {
 					specs = append(specs, CaseSpec{Constraint: 1, EmptyData: true, Pred: pred, PredHit: true, MOut: out, MErr: er})
+				}
+			}
+		}
+		for con := 0; con < 3; con++ { // nil pointer values (pointer type only)
+			for pred := 0; pred <= 6; pred++ {
+				for hit := 0; hit < 2; hit++ {
+					for st := 0; st < 3; st++ {
+						for er := 0; er < 3; er++ {
+							specs = append(specs, CaseSpec{Constraint: con, NilValue: true, Pred: pred, PredHit: hit == 1, UStore: st, UErr: er, MOut: 2})
+						}
+					}
 				}
 			}
 		}
@@ -909,28 +959,36 @@ func TestCheck(t *testing.T) {
 			{MErr: 2, UErr: 2}, {Pred: 3, PredHit: true, MErr: 2, UErr: 2, UStore: 2}, // panics
 			{Before: 2}, {After: 3}, {Before: 1, After: 1},
 			{Constraint: 1, Pred: 6, MErr: 1, MOut: 2}, {Constraint: 2, Pred: 5, UErr: 1, UStore: 2},
-			{After: 4}, {Before: 4, Constraint: 1}, {Constraint: 1, EmptyData: true, MOut: 2}, // hooks that rewrite the case they are handed; nil result for empty data
+			{After: 4}, {Before: 4, Constraint: 1}, {Constraint: 1, EmptyData: true, MOut: 2},
+			{Before: 5}, {Before: 6, After: 2}, {Before: 6, After: 3, MErr: 2, UErr: 2, Pred: 3, PredHit: true, UStore: 2}, // hooks that rewrite the case they are handed; nil result for empty data
 		}
 		np := int64(len(pal))
-		r.Parallel(np*np*np, 32, func(w *vkit.W, lo, hi int64) {
+		// all ordered pairs over the whole palette
+		r.Parallel(np*np, 8, func(w *vkit.W, lo, hi int64) {
 			for k := lo; k < hi; k++ {
-				a, b, c := pal[k/(np*np)], pal[k/np%np], pal[k%np]
+				a, b := pal[k/np], pal[k%np]
 				for hi2, h := range helpers {
 					typ := []string{"SV", "SP", "PRecv"}[(int(k)+hi2)%3]
-					ls := ListSpec{Helper: h, Type: typ, Cases: []CaseSpec{a, b, c}, CustomHelper: k%3 == 0}
-					if k%np == 0 { // also the pair (a, b) on its own
-						pair := ListSpec{Helper: h, Type: typ, Cases: []CaseSpec{a, b}}
-						w.Eval(judge(pair, w))
-					}
-					w.Eval(judge(ls, w))
+					w.Eval(judge(ListSpec{Helper: h, Type: typ, Cases: []CaseSpec{a, b}, CustomHelper: k%3 == 0}, w))
+				}
+			}
+		})
+		// all ordered triples over the first twelve palette entries
+		nc := int64(12)
+		r.Parallel(nc*nc*nc, 16, func(w *vkit.W, lo, hi int64) {
+			for k := lo; k < hi; k++ {
+				a, b, c := pal[k/(nc*nc)], pal[k/nc%nc], pal[k%nc]
+				for hi2, h := range helpers {
+					typ := []string{"SV", "SP"}[(int(k)+hi2)%2]
+					w.Eval(judge(ListSpec{Helper: h, Type: typ, Cases: []CaseSpec{a, b, c}, CustomHelper: k%3 == 0}, w))
 				}
 			}
 		})
 	})
-	r.Exhaustive("all ordered pairs and triples over a 23-element palette of case specs x 6 helpers (each list run through the helper and then, on the same slice, through the opposite helper)")
+	r.Exhaustive("all ordered pairs over a 26-element palette and all ordered triples over its first 12 elements x 6 helpers (each list run through the helper and then, on the same slice, through the opposite helper)")
 
 	r.Phase("B: rapid case lists of length 0..6", func() {
-		r.Rapid(t, "rapid-lists", 0, r.Pick(30000, 1200000), func(rt *rapid.T, w *vkit.W) vkit.RapidCase {
+		r.Rapid(t, "rapid-lists", 0, r.Pick(15000, 1200000), func(rt *rapid.T, w *vkit.W) vkit.RapidCase {
 			ls := ListSpec{
 				Helper:       rapid.SampledFrom(helpers).Draw(rt, "helper"),
 				Type:         rapid.SampledFrom(typesAll).Draw(rt, "type"),
